@@ -10,6 +10,7 @@ from mc.kernel import Stats, h64
 
 L_FULL = {"quick": 4, "thorough": 5}
 L_CORE = {"quick": 5, "thorough": 6}
+
 DOC_DEPTH = {"quick": 3, "thorough": 4}
 
 # fragments for the "lists produced by extraction" part: ambiguous documents
@@ -32,11 +33,15 @@ AR = [
     "Mass. Gen. Laws ch. 1, § 2. ",
     "See Foo v. Bar, 1 U. S. 10, 12 (1990). ",
     "Nothing here. ",
+    "Baz v. Qux, 1 U.S. ___ (1991). ",
+    "Foo v. Bar, 1 U.S. ___ (1990). ",
+    "Qux, 1 U.S. at 7. ",
+    "Kim v. Lee, 2 F.3d 20 (1995). ",
 ]
 
 ASSUMPTIONS = [
     "default resolvers only; custom resolver callbacks are outside the property",
-    "abstract alphabet of 23 citation kinds (real objects extracted once from snippets, shallow-copied per position)",
+    "abstract alphabet of 27 citation kinds (real objects extracted once from snippets, shallow-copied per position)",
     "BFS canonical state = (set of full-citation classes seen, placeholder-page count capped at 2, class of last resolution); "
     "soundness of this abstraction is checked by comparing all one-step futures of two representative histories per state",
 ]
@@ -44,7 +49,7 @@ ASSUMPTIONS = [
 
 def rule(pid):
     return (
-        "seq: every sequence of length <= L over the 23-symbol alphabet (and <= L' over the 12 most interacting symbols) "
+        "seq: every sequence of length <= L over the 27-symbol alphabet (and <= L' over the 16 most interacting symbols) "
         "through the real resolve_citations; bfs: explicit-state search over canonical resolver states to fix-point, every "
         "transition executes the real resolver on representative+[event]; docs: lists extracted by get_citations from all "
         "concatenations of <= k ambiguous-document fragments (all prefixes for C08). distinct = distinct sequence/text; "
